@@ -127,8 +127,15 @@ const STD_NAMES: &[&str] = &["add", "len", "get", "to_str", "eq", "max", "contai
 
 fn gen_case(t: &mut Tape) -> Case {
     let name = if t.below(3) == 0 { t.pick(STD_NAMES).to_string() } else { "f".to_string() };
-    let pool = arg_types();
-    let pats = patterns();
+    // the witness expressions of stacks and mappings call push / set / hash / eq themselves: with a
+    // library name the user's overloads would take part in those calls too
+    let library = name != "f";
+    let uses_lib = |t: &Ty| {
+        let s = t.src();
+        s.contains("Stack") || s.contains("Mapping")
+    };
+    let pool: Vec<Ty> = arg_types().into_iter().filter(|t| !(library && uses_lib(t))).collect();
+    let pats: Vec<Ty> = patterns().into_iter().filter(|t| !(library && uses_lib(t))).collect();
     let nargs = match t.below(8) {
         0 => 0,
         1 | 2 | 3 => 1,
@@ -397,7 +404,7 @@ fn run_cases(cases: &[Case], subs: &[Vec<u8>], ctx: &mut Ctx) -> Result<Vec<Case
         push("levels_swapped", &flipped, false, &mut variants);
         // added overloads that do not match the call
         let mut extra = case.ovs.clone();
-        let pool = arg_types();
+        let pool: Vec<Ty> = arg_types().into_iter().filter(|t| case.name == "f" || !(t.src().contains("Stack") || t.src().contains("Mapping"))).collect();
         let mut x = seed ^ 0x9e37;
         let mut added = 0;
         for k in 0..6 {
